@@ -157,6 +157,8 @@ def check(program: Program, run: Run) -> None:
                 ok, why = False, f"the check is not inside the loop over {opt['in_loop_over']}: only some operands are checked"
         elif g["loops"] and (opt.get("no_loop") or not opt.get("nested")):
             ok, why = False, f"the test sits inside `for ... in {g['loops'][0]}`: it does not run when that iteration is empty, so it does not dominate what it protects"
+        if ok and protects and not any(opt.get(k) for k in ("nested", "else_branch", "in_handler", "second", "in_loop_over", "tail")) and g["depth"] > 1:
+            ok, why = False, (f"the guard is nested under another condition, so the paths that write {sorted(protects)} without satisfying that condition are not protected")
         if ok and protects and not opt.get("nested"):
             fw = first_write_index(f, protects)
             if fw is not None and g["top"] > fw:
